@@ -85,19 +85,30 @@ void* operator new[](std::size_t n, const std::nothrow_t&) noexcept
 {
   return sim_aligned_alloc_nothrow(n);
 }
+// a block that is given back is overwritten first: whoever still reads it (a name kept by pointer, a reference to a
+// container element) sees the same bytes in every execution, and not the old content
+#include <malloc.h>
+inline void sim_poisoning_free(void* p) noexcept
+{
+  if (p) {
+    __builtin_memset(p, 0xDD, malloc_usable_size(p));
+    asm volatile("" : : "r"(p) : "memory"); // (a store into a block that is about to be freed is otherwise optimised away)
+  }
+  std::free(p);
+}
 void operator delete(void* p) noexcept
 {
-  std::free(p);
+  sim_poisoning_free(p);
 }
 void operator delete[](void* p) noexcept
 {
-  std::free(p);
+  sim_poisoning_free(p);
 }
 void operator delete(void* p, std::size_t) noexcept
 {
-  std::free(p);
+  sim_poisoning_free(p);
 }
 void operator delete[](void* p, std::size_t) noexcept
 {
-  std::free(p);
+  sim_poisoning_free(p);
 }
